@@ -82,7 +82,7 @@ func (m *Machine) external(fn *ssa.Function, args []Value) Value {
 	}
 	// a synthetic wrapper / bound method / generic instance OF A MODULE FUNCTION is interpreted; an instance of a library generic
 	// (slices.Sorted, maps.Keys, cmp.Or ...) is not: library code is only ever entered through a summary
-	if fn.Synthetic != "" && fn.Blocks != nil && (m.P.InModule(fn) || interpretableLibraryGeneric(name)) {
+	if fn.Synthetic != "" && fn.Blocks != nil && (m.P.InModule(fn) || interpretableLibraryGeneric(fn, name)) {
 		// wrappers for embedded-field promotion etc. are interpreted
 		fr := &frame{fn: fn, env: map[ssa.Value]Value{}, pos: fn.Pos()}
 		for i, p := range fn.Params {
@@ -108,13 +108,42 @@ func (m *Machine) external(fn *ssa.Function, args []Value) Value {
 	return t
 }
 
-// interpretableLibraryGeneric lists library generics whose bodies are plain value code the interpreter executes exactly.
-func interpretableLibraryGeneric(name string) bool {
-	switch name {
-	case "cmp.Or", "cmp.Compare", "cmp.Less", "slices.Contains", "slices.Index", "slices.Reverse", "slices.Equal", "slices.Clone", "slices.ContainsFunc", "slices.IndexFunc":
-		return true
+// interpretableLibraryGeneric: instances of the plain-value helpers of slices / maps / cmp (standard library and x/exp) are
+// executed exactly by the interpreter. Excluded: anything whose signature mentions an iterator (range-over-func is NOT
+// interpreted) and the sorting / searching families (summarised or undecided).
+func interpretableLibraryGeneric(fn *ssa.Function, name string) bool {
+	pkg := name
+	if i := strings.LastIndexByte(name, '.'); i >= 0 {
+		pkg = name[:i]
 	}
-	return false
+	switch pkg {
+	case "slices", "golang.org/x/exp/slices", "maps", "golang.org/x/exp/maps", "cmp":
+	default:
+		return false
+	}
+	short := name[len(pkg)+1:]
+	for _, p := range []string{"Sort", "Stable", "BinarySearch", "IsSorted", "Min", "Max", "Compact"} {
+		if strings.HasPrefix(short, p) {
+			return false
+		}
+	}
+	mentionsIter := func(t *types.Tuple) bool {
+		for i := 0; i < t.Len(); i++ {
+			if strings.Contains(t.At(i).Type().String(), "iter.Seq") {
+				return true
+			}
+			if sig, ok := t.At(i).Type().Underlying().(*types.Signature); ok {
+				// a func(yield func(...) bool) parameter/result is an iterator in disguise
+				if sig.Params().Len() == 1 {
+					if _, isFn := sig.Params().At(0).Type().Underlying().(*types.Signature); isFn {
+						return true
+					}
+				}
+			}
+		}
+		return false
+	}
+	return !mentionsIter(fn.Signature.Params()) && !mentionsIter(fn.Signature.Results())
 }
 
 // Seq is the abstract value of an iter.Seq produced by maps.Keys / maps.Values / slices.Values: the elements in the
@@ -576,6 +605,32 @@ func externals() map[string]ExtFn {
 			return Lit(filepath.Base(c))
 		}
 		return s.MapHoles("base", filepath.Base)
+	}
+	for _, n := range []string{"path.Ext", "path/filepath.Ext"} {
+		n := n
+		e[n] = func(m *Machine, a []Value) Value {
+			s := strArg(m, a[0])
+			if c, ok := s.Concrete(); ok {
+				return Lit(filepath.Ext(c))
+			}
+			panic(m.undecided("%s of a symbolic name", n))
+		}
+	}
+	for _, n := range []string{"path.Dir", "path/filepath.Dir", "path.Clean", "path/filepath.Clean"} {
+		n := n
+		if _, have := e[n]; have {
+			continue
+		}
+		e[n] = func(m *Machine, a []Value) Value {
+			s := strArg(m, a[0])
+			if c, ok := s.Concrete(); ok {
+				if strings.HasSuffix(n, "Dir") {
+					return Lit(filepath.Dir(c))
+				}
+				return Lit(filepath.Clean(c))
+			}
+			panic(m.undecided("%s of a symbolic name", n))
+		}
 	}
 	rounding := func(name string, f func(float64) float64) {
 		e["math."+name] = func(m *Machine, a []Value) Value {
